@@ -243,6 +243,57 @@ def run(prop, seed, budget, ctx):
                              "results": res, "sequential": want, "deadlock": not finished, "yield_points": sched.steps,
                              "why": ["concurrent-first-use-differs-from-sequential" if finished else "threads-did-not-finish"]})
         hist["schema-yield-points:%d" % min(sched.steps // 10 * 10, 90)] += 1
+    # (i-d) lazily registered conversions (serializer(lazy=...) / deserializer(lazy=...)): the user callable is slow (yield points inside);
+    # threads make the first use of the class - serialize, deserialize, schema - while it is being evaluated; twin classes registered
+    # the same way and used sequentially give the expected results
+    lz_src = list(HEADER) + ["from apischema import deserializer, serializer", "from apischema.conversions import Conversion", "POINT = [None]", ""]
+    nz = 16 * budget
+    for i in range(nz):
+        for pre in ("LZ", "TW"):
+            lz_src += [f"class {pre}M{i}:", "    def __init__(self, cents: int):", "        self.cents = cents",
+                       "    def __eq__(self, o): return type(o) is type(self) and o.cents == self.cents", "    def __repr__(self): return f'M({self.cents})'", "",
+                       f"def {pre}_to_str{i}(m: {pre}M{i}) -> str:", "    return f'{m.cents}c'", "",
+                       f"def {pre}_from_str{i}(s: str) -> {pre}M{i}:", f"    return {pre}M{i}(int(s[:-1]))", "",
+                       f"def {pre}_lazy_ser{i}():"] + (["    for _ in range(3): POINT[0] and POINT[0]()"] if pre == "LZ" else []) + [f"    return Conversion({pre}_to_str{i}, source={pre}M{i}, target=str)", "",
+                       f"def {pre}_lazy_des{i}():"] + (["    for _ in range(3): POINT[0] and POINT[0]()"] if pre == "LZ" else []) + [f"    return Conversion({pre}_from_str{i}, source=str, target={pre}M{i})", "",
+                       f"serializer(lazy={pre}_lazy_ser{i}, source={pre}M{i})", f"deserializer(lazy={pre}_lazy_des{i}, target={pre}M{i})", "",
+                       "@dataclass", f"class {pre}W{i}:", f"    m: {pre}M{i}", f"    ms: List[{pre}M{i}] = field(default_factory=list)", ""]
+    zmod = build_module(lz_src, f"reclz{seed}"); zns = dict(vars(zmod))
+    def zpoint():
+        if state["sched"]: state["sched"].point()
+    zmod.POINT[0] = zpoint
+    # (the recursion analysis runs under the package's lock and evaluates lazy conversions: a thread blocked on it yields to the scheduler)
+    if orig_lock is not None: recursion._lock = SchedLock(lambda: state["sched"], tl)
+    for i in range(nz):
+        def jobs_for(pre):
+            M, W = zns[f"{pre}M{i}"], zns[f"{pre}W{i}"]
+            return {"A": lambda: repr(serialize(M, M(1250))), "B": lambda: json.dumps(serialization_schema(M), sort_keys=True),
+                    "C": lambda: repr(serialize(W, W(M(5), [M(6)]))), "D": lambda: repr(deserialize(W, {"m": "7c", "ms": ["8c"]})),
+                    "E": lambda: json.dumps(deserialization_schema(List_(M)), sort_keys=True)}
+        names = rnd.sample("ABCDE", rnd.choice([2, 3]))
+        want = {k: fn().replace("TW", "LZ") for k, fn in jobs_for("TW").items() if k in names}
+        jobs = {k: fn for k, fn in jobs_for("LZ").items() if k in names}
+        res = {}
+        def mk(name):
+            def fn():
+                try: res[name] = jobs[name]()
+                except BaseException as e: res[name] = "EXC:" + type(e).__name__ + ":" + str(e)[:60]
+            return fn
+        schedule = [rnd.choice(sorted(jobs)) for _ in range(60)]
+        sched = Sched(schedule, tl); state["sched"] = sched
+        finished = sched.start({k: mk(k) for k in jobs})
+        state["sched"] = None
+        evaluations += 1; distinct.add(("lazy-conversion", i, "".join(names), "".join(schedule[:20])))
+        after = {}
+        for k, fn in jobs.items():
+            try: after[k] = fn()
+            except BaseException as e: after[k] = "EXC:" + type(e).__name__ + ":" + str(e)[:60]
+        if not finished or res != want or after != want:
+            failures.append({"kind": "P", "k_ok": True, "mode": "lazy-conversion", "jobs": names, "schedule": "".join(schedule), "results": res, "sequential_afterwards": after,
+                             "sequential": want, "deadlock": not finished, "yield_points": sched.steps,
+                             "why": ["concurrent-first-use-differs-from-sequential" if finished else "threads-did-not-finish"]})
+        hist["lazy-conversion-yield-points:%d" % min(sched.steps, 9)] += 1
+    if orig_lock is not None: recursion._lock = orig_lock
     # (ii) stress on the unpatched package: real pre-emption
     old = sys.getswitchinterval(); sys.setswitchinterval(1e-6)
     try:
